@@ -319,3 +319,101 @@ Definition delivered (X : bool) (tr : list event) (i : nat) : Prop :=
 (* endpoint X has transmitted sequenced segment number i within tr *)
 Definition emitted_seq (X : bool) (tr : list event) (i : nat) : Prop :=
   exists g, In g (emitted X tr) /\ is_seq X (g_ty g) = true /\ N.to_nat (g_seq g) = i.
+
+(* ------------------------------------------------------------------------------------------------ *)
+(* Part 2b. After Close.  The recorded trace of a session is  pre ++ post : [pre] ends where an application (or
+   mieru itself) starts closing, [post] holds the datagrams emitted afterwards (close request / response, queued
+   data, retransmissions).  After Close queued segments may be discarded and the close response bypasses the send
+   queue, so first transmissions are no longer gapless on the wire and are not checked; what still must hold is
+   that a sequence number is never used for two different contents - also across Close, and also for the
+   sequenced CONTROL segments (open / close request / response consume sequence numbers like data). *)
+
+Fixpoint assoc (k : N) (l : list (N * content)) : option content :=
+  match l with
+  | [] => None
+  | (k', c) :: l' => if N.eqb k' k then Some c else assoc k l'
+  end.
+(* the content bound to sequence number k: by the pre-Close history [asg], else by what was seen after Close *)
+Definition lookup (asg : list content) (late : list (N * content)) (k : N) : option content :=
+  if N.ltb k (N.of_nat (length asg)) then nth_error asg (N.to_nat k) else assoc k late.
+
+Record lst := mkL { l_c : list (N * content); l_s : list (N * content) }.
+Definition getL (X : bool) (l : lst) := if X then l_s l else l_c l.
+Definition setL (X : bool) (v : list (N * content)) (l : lst) := if X then mkL (l_c l) v else mkL v (l_s l).
+Definition l0 : lst := mkL [] [].
+
+(* a = the acceptor state at Close *)
+Definition late_step (a : ast) (l : lst) (e : event) : option lst :=
+  match e with
+  | ES X g =>
+      if is_seq X (g_ty g) then
+        match lookup (e_asg (getE X a)) (getL X l) (g_seq g) with
+        | Some c => if content_eqb c (cont g) then Some l else None
+        | None => Some (setL X ((g_seq g, cont g) :: getL X l) l)
+        end
+      else if is_ack X (g_ty g) then Some l else None
+  | _ => Some l
+  end.
+Fixpoint late_run (a : ast) (l : lst) (post : list event) : option lst :=
+  match post with
+  | [] => Some l
+  | e :: t => match late_step a l e with Some l' => late_run a l' t | None => None end
+  end.
+(* the whole recorded session: [pre] accepted by the acceptor, [post] consistent with it *)
+Definition accept_closed (pre post : list event) : bool :=
+  match accept pre with
+  | inl a => match late_run a l0 post with Some _ => true | None => false end
+  | inr _ => false
+  end.
+
+(* ------------------------------------------------------------------------------------------------ *)
+(* Part 1b. Windows.  In Part 1 the send window [win] is a free oracle value.  Here it is computed as the code
+   does - sendWindowSize = min(cwnd - |sendBuf|, remoteWindowSize) - from a congestion window (oracle, never below
+   minWindowSize), the sender's view [rwnd] of the receiver's window, the receiver's free space [rspace]
+   (oracle: segmentTreeCapacity - |recvBuf| - |recvQueue|, changed by arrivals and application reads) and the
+   window values carried by the datagrams of the reverse direction.  inputAck / inputData store the advertised
+   window of EVERY ack, also of one whose ack number is not new: that is what reopens a closed window when
+   nothing is in flight (the receiver's heartbeat ack). *)
+
+Record wst := mkW {
+  base : st;
+  cwnd : nat;
+  rwnd : nat;                     (* sender: remoteWindowSize *)
+  rspace : nat;                   (* receiver: receiveWindowSize() *)
+  backw : list (nat * nat)        (* every datagram of the reverse direction: (unAckSeq, windowSize) *)
+}.
+Definition minWindow : nat := Z.to_nat C02_minWindowSize.
+Definition swin (b : st) (cw rw : nat) : nat := Nat.min (cw - (sent_hi b - una b)) rw.
+Definition set_win (b : st) (w : nat) : st :=
+  mkSt (assigned b) (una b) (sent_hi b) w (fwd b) (back b) (next_recv b) (rbuf b) (got b) (rd b) (lost b).
+Definition is_setwin (l : label) : bool := match l with LSetWin _ => true | _ => false end.
+Definition is_sendack (l : label) : bool := match l with LSendAck _ => true | _ => false end.
+Definition is_recvack (l : label) : bool := match l with LRecvAck _ => true | _ => false end.
+
+Inductive wlabel :=
+| WBase (l : label)               (* a step of Part 1 other than window / ack steps *)
+| WCwnd (c : nat)                 (* CUBIC changes the congestion window *)
+| WSpace (r : nat)                (* arrivals / application reads change the receiver's free space *)
+| WSendAck (u : nat)              (* the receiver emits a datagram: (unAckSeq, current window) *)
+| WRecvAck (u w : nat).           (* the sender processes it: sendBuf pruned, remoteWindowSize := w, whatever u is *)
+
+Inductive wstep : wst -> wlabel -> wst -> Prop :=
+| ws_base : forall s l b1,
+    lstep (base s) l b1 -> is_setwin l = false -> is_sendack l = false -> is_recvack l = false ->
+    wstep s (WBase l) (mkW (set_win b1 (swin b1 (cwnd s) (rwnd s))) (cwnd s) (rwnd s) (rspace s) (backw s))
+| ws_cwnd : forall s c,
+    minWindow <= c ->
+    wstep s (WCwnd c) (mkW (set_win (base s) (swin (base s) c (rwnd s))) c (rwnd s) (rspace s) (backw s))
+| ws_space : forall s r,
+    wstep s (WSpace r) (mkW (base s) (cwnd s) (rwnd s) r (backw s))
+| ws_sendack : forall s u b1,
+    lstep (base s) (LSendAck u) b1 ->
+    wstep s (WSendAck u) (mkW b1 (cwnd s) (rwnd s) (rspace s) ((u, rspace s) :: backw s))
+| ws_recvack : forall s u w b1,
+    In (u, w) (backw s) -> lstep (base s) (LRecvAck u) b1 ->
+    wstep s (WRecvAck u w) (mkW (set_win b1 (swin b1 (cwnd s) w)) (cwnd s) w (rspace s) (backw s)).
+
+Definition winit (cw rw rs : nat) : wst := mkW (init (Nat.min cw rw)) cw rw rs [].
+Inductive wreach : wst -> Prop :=
+| wreach_init : forall cw rw rs, minWindow <= cw -> wreach (winit cw rw rs)
+| wreach_step : forall s l s', wreach s -> wstep s l s' -> wreach s'.
